@@ -943,6 +943,153 @@ unsafe fn whirlpool_preflight(input: *mut u8) -> u64 {
     }
 }
 
+/// The Anchor implementations of the four liquidity instructions are still in the tree as public
+/// handlers (the `#[program]` stubs are `unreachable!()`): drive them with the same sequence the
+/// `#[program]` macro generates (try_accounts -> Context::new -> handler -> exit).
+fn anchor_twin<'info>(program_id: &Pubkey, accounts: &'info [AccountInfo<'info>], data: &[u8]) -> anchor_lang::Result<()> {
+    use anchor_lang::prelude::*;
+    use anchor_lang::{Bumps, Discriminator};
+    use std::collections::BTreeSet;
+    use whirlpool::instruction as wi;
+    use whirlpool::instructions as ins;
+    if data.len() < 8 {
+        return Err(ProgramError::InvalidInstructionData.into());
+    }
+    let (disc, mut ix_data) = data.split_at(8);
+    let mut reallocs: BTreeSet<Pubkey> = BTreeSet::new();
+    let mut remaining = accounts;
+    if disc == wi::IncreaseLiquidity::DISCRIMINATOR {
+        let a = wi::IncreaseLiquidity::deserialize(&mut ix_data).map_err(|_| anchor_lang::error::ErrorCode::InstructionDidNotDeserialize)?;
+        let mut bumps = <ins::ModifyLiquidity as Bumps>::Bumps::default();
+        let mut accs = ins::ModifyLiquidity::try_accounts(program_id, &mut remaining, ix_data, &mut bumps, &mut reallocs)?;
+        ins::increase_liquidity::handler(Context::new(program_id, &mut accs, remaining, bumps), a.liquidity_amount, a.token_max_a, a.token_max_b)?;
+        accs.exit(program_id)
+    } else if disc == wi::DecreaseLiquidity::DISCRIMINATOR {
+        let a = wi::DecreaseLiquidity::deserialize(&mut ix_data).map_err(|_| anchor_lang::error::ErrorCode::InstructionDidNotDeserialize)?;
+        let mut bumps = <ins::ModifyLiquidity as Bumps>::Bumps::default();
+        let mut accs = ins::ModifyLiquidity::try_accounts(program_id, &mut remaining, ix_data, &mut bumps, &mut reallocs)?;
+        ins::decrease_liquidity::handler(Context::new(program_id, &mut accs, remaining, bumps), a.liquidity_amount, a.token_min_a, a.token_min_b)?;
+        accs.exit(program_id)
+    } else if disc == wi::IncreaseLiquidityV2::DISCRIMINATOR {
+        let a = wi::IncreaseLiquidityV2::deserialize(&mut ix_data).map_err(|_| anchor_lang::error::ErrorCode::InstructionDidNotDeserialize)?;
+        let mut bumps = <ins::v2::ModifyLiquidityV2 as Bumps>::Bumps::default();
+        let mut accs = ins::v2::ModifyLiquidityV2::try_accounts(program_id, &mut remaining, ix_data, &mut bumps, &mut reallocs)?;
+        ins::v2::increase_liquidity::handler(Context::new(program_id, &mut accs, remaining, bumps), a.liquidity_amount, a.token_max_a, a.token_max_b, a.remaining_accounts_info)?;
+        accs.exit(program_id)
+    } else if disc == wi::DecreaseLiquidityV2::DISCRIMINATOR {
+        let a = wi::DecreaseLiquidityV2::deserialize(&mut ix_data).map_err(|_| anchor_lang::error::ErrorCode::InstructionDidNotDeserialize)?;
+        let mut bumps = <ins::v2::ModifyLiquidityV2 as Bumps>::Bumps::default();
+        let mut accs = ins::v2::ModifyLiquidityV2::try_accounts(program_id, &mut remaining, ix_data, &mut bumps, &mut reallocs)?;
+        ins::v2::decrease_liquidity::handler(Context::new(program_id, &mut accs, remaining, bumps), a.liquidity_amount, a.token_min_a, a.token_min_b, a.remaining_accounts_info)?;
+        accs.exit(program_id)
+    } else {
+        Err(ProgramError::InvalidInstructionData.into())
+    }
+}
+
+pub fn has_anchor_twin(ix: &Ix) -> bool {
+    use anchor_lang::Discriminator;
+    use whirlpool::instruction as wi;
+    ix.program_id == whirlpool::ID
+        && ix.data.len() >= 8
+        && [
+            wi::IncreaseLiquidity::DISCRIMINATOR,
+            wi::DecreaseLiquidity::DISCRIMINATOR,
+            wi::IncreaseLiquidityV2::DISCRIMINATOR,
+            wi::DecreaseLiquidityV2::DISCRIMINATOR,
+        ]
+        .iter()
+        .any(|d| ix.data[..8] == **d)
+}
+
+/// Execute a liquidity instruction through the Anchor implementation (not the live routing).
+/// Returns the outcome and the post-accounts as read back from the buffer (no runtime checks, no commit).
+pub fn exec_ix_anchor_twin(ledger: &Ledger, ix: &Ix, opts: &ExecOpts) -> (IxOutcome, Vec<PostAccount>) {
+    install_stubs();
+    let flags: BTreeMap<Pubkey, (bool, bool)> = {
+        let mut f = BTreeMap::new();
+        for m in &ix.accounts {
+            let e = f.entry(m.pubkey).or_insert((false, false));
+            e.0 |= m.is_signer;
+            e.1 |= m.is_writable;
+        }
+        f
+    };
+    let metas: Vec<Meta> = ix
+        .accounts
+        .iter()
+        .map(|m| {
+            let (s, w) = flags[&m.pubkey];
+            Meta { pubkey: m.pubkey, is_signer: s, is_writable: w }
+        })
+        .collect();
+    let mut buf = serialize(ledger, ix, &flags);
+    reset_ix_ctx(ix, &metas, opts);
+    let ptr = buf.ptr();
+    let r = std::panic::catch_unwind(std::panic::AssertUnwindSafe(|| unsafe {
+        let (program_id, accounts, data) = solana_program::entrypoint::deserialize(ptr);
+        match anchor_twin(program_id, &accounts, data) {
+            Ok(()) => 0u64,
+            Err(e) => {
+                let pe: ProgramError = e.into();
+                let c = u64::from(pe);
+                if c == 0 { 1 << 32 } else { c }
+            }
+        }
+    }));
+    let mut out = IxOutcome::default();
+    match r {
+        Ok(code) => out.code = code,
+        Err(payload) => {
+            if let Some(a) = payload.downcast_ref::<CpiAbort>() {
+                out.code = a.0;
+            } else {
+                out.code = ERR_PANIC;
+                out.detail = with_ctx(|c| c.panic_msg.clone());
+            }
+        }
+    }
+    out.traces = whirlpool::verif_hooks::take();
+    with_ctx(|c| {
+        out.logs = std::mem::take(&mut c.logs);
+        out.events = std::mem::take(&mut c.data_logs);
+        out.cpis = std::mem::take(&mut c.cpis);
+        out.injected_fired = c.injected_fired;
+        c.stack.clear();
+    });
+    let post = read_back(&buf).unwrap_or_default();
+    (out, post)
+}
+
+/// Post-accounts of the live path for the same instruction (for byte comparison with the twin).
+pub fn exec_ix_live_raw(ledger: &Ledger, ix: &Ix, opts: &ExecOpts) -> (IxOutcome, Vec<PostAccount>) {
+    let mut l = ledger.clone();
+    let flags: BTreeMap<Pubkey, (bool, bool)> = {
+        let mut f = BTreeMap::new();
+        for m in &ix.accounts {
+            let e = f.entry(m.pubkey).or_insert((false, false));
+            e.0 |= m.is_signer;
+            e.1 |= m.is_writable;
+        }
+        f
+    };
+    let o = exec_ix(&mut l, ix, &flags, opts);
+    let mut post = Vec::new();
+    let mut seen: Vec<Pubkey> = Vec::new();
+    for m in &ix.accounts {
+        if seen.contains(&m.pubkey) {
+            continue;
+        }
+        seen.push(m.pubkey);
+        let (lamports, owner, data) = match l.get(&m.pubkey) {
+            Some(a) => (a.lamports, a.owner, (*a.data).clone()),
+            None => (0, system_program_id(), Vec::new()),
+        };
+        post.push(PostAccount { key: m.pubkey, lamports, owner, data });
+    }
+    (o, post)
+}
+
 pub fn whirlpool_id() -> Pubkey {
     whirlpool::ID
 }
